@@ -105,5 +105,24 @@ example : hookModesReachable = [.err "invalid_fraction", .err "no_validator", .e
     .err "insufficient_funds", .err "oracle_exhausted", .err "oracle_mismatch", .panic "neg_dec_coin", .panic "neg_coin",
     .panic "div_zero"] := rfl
 
+/-- fact (regenerated from keeper/hooks.go on every run): the bodies of the staking hooks, statement by statement (first source
+    line of each) — the callback is `SlashValidator` then `QueueAssetRebalanceEvent` with nothing in front of it, the five
+    stake-changing events queue a rebalance, the others do nothing. An added early return (e.g. "skip validators that are
+    not bonded"), a dropped or reordered call breaks this `rfl` -/
+theorem hook_bodies_as_modelled : Generated.hookStatements = [
+  ("AfterValidatorCreated", ["return nil"]),
+  ("BeforeValidatorModified", ["return nil"]),
+  ("AfterValidatorRemoved", ["err = h.k.DeleteValidatorInfo(ctx, valAddr)", "if err != nil {", "return h.k.QueueAssetRebalanceEvent(ctx)"]),
+  ("AfterValidatorBonded", ["return h.k.QueueAssetRebalanceEvent(ctx)"]),
+  ("AfterValidatorBeginUnbonding", ["return h.k.QueueAssetRebalanceEvent(ctx)"]),
+  ("BeforeDelegationCreated", ["return nil"]),
+  ("BeforeDelegationSharesModified", ["return nil"]),
+  ("BeforeDelegationRemoved", ["return h.k.QueueAssetRebalanceEvent(ctx)"]),
+  ("AfterDelegationModified", ["return h.k.QueueAssetRebalanceEvent(ctx)"]),
+  ("BeforeValidatorSlashed", ["err := h.k.SlashValidator(ctx, valAddr, fraction)", "if err != nil {", "return h.k.QueueAssetRebalanceEvent(ctx)"]),
+  ("AfterValidatorSlashed", []),
+  ("AfterUnbondingInitiated", ["return nil"])
+] := rfl
+
 end C08
 end Alliance
